@@ -8,7 +8,6 @@ import (
 	"go/token"
 	"go/types"
 	"runtime/debug"
-	"sort"
 	"strings"
 	"sync"
 	"time"
@@ -59,7 +58,54 @@ func (p *Program) verifyFunc(fi *FuncInfo) (res *FuncResult) {
 		verifyCache[fi.Key] = res
 	}()
 	vc.verifyBody()
+	if fi.Spec != nil && fi.Spec.Flags["split_paths"] {
+		p.verifySplit(fi, res, vc)
+	}
 	return res
+}
+
+const maxPaths = 400
+
+// verifySplit re-executes the function once per control-flow path (branch decisions forced by an oracle)
+// and replaces the obligations of the merged run by per-path obligations grouped by name. The merged run
+// is kept for the frame (written heaps), lock summary and canary.
+func (p *Program) verifySplit(fi *FuncInfo, res *FuncResult, merged *VC) {
+	if len(merged.obls) == 0 {
+		return
+	}
+	byName := map[string]*Obligation{}
+	var order []*Obligation
+	work := [][]bool{{}}
+	paths := 0
+	for len(work) > 0 {
+		forced := work[len(work)-1]
+		work = work[:len(work)-1]
+		paths++
+		if paths > maxPaths {
+			panic(unsupported("more than %d paths in %s (split_paths)", maxPaths, fi.Key))
+		}
+		vc := newVC(p, fi)
+		vc.oracle = &pathOracle{forced: forced}
+		vc.verifyBody()
+		for i := len(forced); i < len(vc.oracle.taken); i++ {
+			alt := append(append([]bool{}, vc.oracle.taken[:i]...), false)
+			work = append(work, alt)
+		}
+		for _, o := range vc.obls {
+			g, ok := byName[o.Name]
+			if !ok {
+				g = &Obligation{Name: o.Name, Func: o.Func, Kind: o.Kind, Pos: o.Pos, Desc: o.Desc, Goal: "split", PC: "true", vc: vc}
+				byName[o.Name] = g
+				order = append(order, g)
+			}
+			g.Parts = append(g.Parts, o)
+		}
+		for _, n := range vc.notes {
+			merged.note(n)
+		}
+	}
+	merged.obls = order
+	merged.note(fmt.Sprintf("path-split: %d paths", paths))
 }
 
 func (vc *VC) verifyBody() {
@@ -114,9 +160,11 @@ func (vc *VC) verifyBody() {
 	vc.frames = append(vc.frames, fr)
 	if recvObj != nil {
 		st.vars[recvObj] = recv
+		vc.entry.vars[recvObj] = recv
 	}
 	for i, o := range paramObjs {
 		st.vars[o] = args[i]
+		vc.entry.vars[o] = args[i]
 	}
 	if fi.Decl.Type.Results != nil {
 		for _, f := range fi.Decl.Type.Results.List {
@@ -300,6 +348,7 @@ func (p *Program) verifyLemma(name string, si *SpecInfo) *FuncResult {
 	vc.pkg = si.Pkg.Types
 	vc.info = si.Pkg.TypesInfo
 	vc.lemmaName = name
+	vc.lemmaSpec = si
 	res := &FuncResult{Key: name, vc: vc}
 	defer func() {
 		if r := recover(); r != nil {
@@ -341,11 +390,15 @@ func (p *Program) verifyLemma(name string, si *SpecInfo) *FuncResult {
 // ---- discharging ------------------------------------------------------------------------------------------
 
 func dischargeAll(results []*FuncResult, timeout time.Duration, workdir string, par int, filter func(o *Obligation) bool) {
-	type job struct {
-		r *FuncResult
-		o *Obligation
+	type leaf struct {
+		o    *Obligation // owning (reported) obligation
+		src  *Obligation // obligation (or path part) whose VC/PC/hypotheses are used
+		goal string
+		tag  string
+		res  SolveResult
 	}
-	var jobs []job
+	var leaves []*leaf
+	byObl := map[*Obligation][]*leaf{}
 	for _, r := range results {
 		for _, o := range r.Obls {
 			if filter != nil && !filter(o) {
@@ -354,30 +407,85 @@ func dischargeAll(results []*FuncResult, timeout time.Duration, workdir string, 
 			if o.Res.Status != "" {
 				continue
 			}
-			jobs = append(jobs, job{r, o})
+			srcs := []*Obligation{o}
+			if len(o.Parts) > 0 {
+				srcs = o.Parts
+			}
+			for pi, src := range srcs {
+				if src.vc == nil {
+					src.vc = r.vc
+				}
+				if src.Goal == "true" || src.PC == "false" {
+					continue
+				}
+				for ci, g := range flattenGoal(src.Goal) {
+					if g == "true" {
+						continue
+					}
+					tag := o.Name
+					if len(srcs) > 1 {
+						tag += fmt.Sprintf(".p%d", pi+1)
+					}
+					tag += fmt.Sprintf(".c%d", ci+1)
+					l := &leaf{o: o, src: src, goal: g, tag: tag}
+					leaves = append(leaves, l)
+					byObl[o] = append(byObl[o], l)
+				}
+			}
+			if len(byObl[o]) == 0 {
+				o.Res = SolveResult{Status: "unsat", Solver: "trivial"}
+			}
 		}
 	}
-	sort.SliceStable(jobs, func(i, j int) bool { return jobs[i].o.Name < jobs[j].o.Name })
-	ch := make(chan job)
+	ch := make(chan *leaf)
 	var wg sync.WaitGroup
 	for i := 0; i < par; i++ {
 		wg.Add(1)
 		go func() {
 			defer wg.Done()
-			for j := range ch {
-				if j.o.Goal == "true" || j.o.PC == "false" {
-					j.o.Res = SolveResult{Status: "unsat", Solver: "trivial"}
-					continue
+			for l := range ch {
+				sub := *l.src
+				sub.Goal = l.goal
+				r := solve(l.src.vc.query(&sub, true), timeout, workdir, l.tag, true)
+				if r.Status != "unsat" && r.Status != "sat" {
+					if cr, ok := caseSplit(l.src.vc, &sub, timeout, workdir, l.tag); ok {
+						r = cr
+					}
 				}
-				j.o.Res = solveSplit(j.r.vc, j.o, timeout, workdir)
+				l.res = r
 			}
 		}()
 	}
-	for _, j := range jobs {
-		ch <- j
+	for _, l := range leaves {
+		ch <- l
 	}
 	close(ch)
 	wg.Wait()
+	for o, ls := range byObl {
+		total := SolveResult{Status: "unsat", All: map[string]string{}}
+		used := map[string]bool{}
+		var worst float64
+		for _, l := range ls {
+			total.TimeS += l.res.TimeS
+			if l.res.TimeS > worst {
+				worst = l.res.TimeS
+			}
+			used[l.res.Solver] = true
+			if l.res.Status != "unsat" && total.Status == "unsat" {
+				total.Status = l.res.Status
+				total.Solver = l.res.Solver
+				total.Output = fmt.Sprintf("; failing part %s: %s\n", strings.TrimPrefix(l.tag, o.Name), l.goal) + l.res.Output
+				total.All = l.res.All
+			}
+		}
+		if total.Status == "unsat" {
+			total.Solver = strings.Join(sortedKeys(used), "+")
+			if len(ls) > 1 {
+				total.All["parts"] = fmt.Sprintf("%d queries, slowest %.2fs", len(ls), worst)
+			}
+		}
+		o.Res = total
+	}
 }
 
 // ---- lock state at function boundaries ---------------------------------------------------------------
@@ -500,17 +608,59 @@ func (vc *VC) callLockCheck(st *State, callee *FuncInfo, recv Val, pos token.Pos
 
 // flattenGoal splits a goal into conjuncts: (and a b) and (=> p (and a b)) are split recursively.
 func flattenGoal(g string) []string {
+	if full := flattenGoalFull(g); len(full) <= maxLeavesPerGoal {
+		return full
+	}
+	for depth := 8; depth >= 1; depth-- {
+		r := flattenDepth(g, depth)
+		if len(r) <= maxLeavesPerGoal || depth == 1 {
+			return r
+		}
+	}
+	return []string{g}
+}
+
+var maxLeavesPerGoal = 400
+
+func flattenDepth(g string, depth int) []string {
+	if depth == 0 {
+		return []string{g}
+	}
 	if strings.HasPrefix(g, "(and ") {
 		var out []string
 		for _, c := range splitConj(g) {
-			out = append(out, flattenGoal(c)...)
+			out = append(out, flattenDepth(c, depth-1)...)
 		}
 		return out
 	}
 	if strings.HasPrefix(g, "(=> ") {
 		parts := splitConj("(and " + g[4:len(g)-1] + ")")
 		if len(parts) == 2 {
-			sub := flattenGoal(parts[1])
+			sub := flattenDepth(parts[1], depth-1)
+			if len(sub) > 1 {
+				var out []string
+				for _, c := range sub {
+					out = append(out, "(=> "+parts[0]+" "+c+")")
+				}
+				return out
+			}
+		}
+	}
+	return []string{g}
+}
+
+func flattenGoalFull(g string) []string {
+	if strings.HasPrefix(g, "(and ") {
+		var out []string
+		for _, c := range splitConj(g) {
+			out = append(out, flattenGoalFull(c)...)
+		}
+		return out
+	}
+	if strings.HasPrefix(g, "(=> ") {
+		parts := splitConj("(and " + g[4:len(g)-1] + ")")
+		if len(parts) == 2 {
+			sub := flattenGoalFull(parts[1])
 			if len(sub) > 1 {
 				var out []string
 				for _, c := range sub {
@@ -528,7 +678,13 @@ func flattenGoal(g string) []string {
 func solveSplit(vc *VC, o *Obligation, timeout time.Duration, workdir string) SolveResult {
 	parts := flattenGoal(o.Goal)
 	if len(parts) <= 1 {
-		return solve(vc.query(o, true), timeout, workdir, o.Name, true)
+		r := solve(vc.query(o, true), timeout, workdir, o.Name, true)
+		if r.Status != "unsat" && r.Status != "sat" {
+			if cr, ok := caseSplit(vc, o, timeout, workdir, o.Name); ok {
+				return cr
+			}
+		}
+		return r
 	}
 	total := SolveResult{Status: "unsat", Solver: "", All: map[string]string{}}
 	used := map[string]bool{}
@@ -539,6 +695,11 @@ func solveSplit(vc *VC, o *Obligation, timeout time.Duration, workdir string) So
 		sub := *o
 		sub.Goal = g
 		r := solve(vc.query(&sub, true), timeout, workdir, fmt.Sprintf("%s.c%d", o.Name, i+1), true)
+		if r.Status != "unsat" && r.Status != "sat" {
+			if cr, ok := caseSplit(vc, &sub, timeout, workdir, fmt.Sprintf("%s.c%d", o.Name, i+1)); ok {
+				r = cr
+			}
+		}
 		total.TimeS += r.TimeS
 		used[r.Solver] = true
 		total.All[fmt.Sprintf("conjunct%d", i+1)] = r.Status + " " + r.Solver
@@ -625,4 +786,28 @@ func (vc *VC) exitEffects(exit *State, fi *FuncInfo) {
 			exit.heap[g] = vc.heapGet(chk, g, srt)
 		}
 	}
+}
+
+// caseSplit retries an undecided goal under c and under (not c) for recent branch conditions c of the
+// function (sound: the two cases are exhaustive). Helps goals stated after control-flow joins.
+func caseSplit(vc *VC, o *Obligation, timeout time.Duration, workdir, tag string) (SolveResult, bool) {
+	var cands []string
+	for i := len(vc.conds) - 1; i >= 0 && len(cands) < 6; i-- {
+		if vc.conds[i].traceN <= o.TraceN {
+			cands = append(cands, vc.conds[i].term)
+		}
+	}
+	for k, c := range cands {
+		r1 := solve(vc.queryWith(o, false, c), timeout, workdir, fmt.Sprintf("%s.split%d.t", tag, k), false)
+		if r1.Status != "unsat" {
+			continue
+		}
+		r2 := solve(vc.queryWith(o, false, not(c)), timeout, workdir, fmt.Sprintf("%s.split%d.f", tag, k), false)
+		if r2.Status != "unsat" {
+			continue
+		}
+		return SolveResult{Status: "unsat", Solver: r1.Solver + "|" + r2.Solver + " (case split)", TimeS: r1.TimeS + r2.TimeS,
+			All: map[string]string{"split": c}}, true
+	}
+	return SolveResult{}, false
 }
